@@ -334,6 +334,7 @@ def _plugin_task(args):
                         nxt.append(h2)
             frontier = nxt
         out["states"] = len(seen)
+        out["uuid_issued_by_injected_streams"] = {k: st.n for k, st in streams.items()}   # 0 = the seam does not reach the code
         out["distinct_outcomes"] = len(outcomes)
         out["max_history_length"] = maxlen
     finally:
@@ -420,7 +421,7 @@ def run(ctx):
         for k in tot:
             tot[k] += part[k]
         samples += part["samples"][:1]
-        per[part["plugin"]] = {k: part.get(k) for k in ("histories", "states", "runs", "cli_runs", "distinct_outcomes", "max_history_length")}
+        per[part["plugin"]] = {k: part.get(k) for k in ("histories", "states", "runs", "cli_runs", "distinct_outcomes", "max_history_length", "uuid_issued_by_injected_streams")}
         for kind, site, what, rp in part["bad"]:
             r = {"engine": "HIST", "plugin": site, "input": None}
             r.update(rp)
